@@ -245,7 +245,18 @@ func resolveBound(fn *Func, x ast.Expr) (*Func, ast.Expr) {
 			return fn, x
 		}
 		vr, ok := fn.Info().Uses[id].(*types.Var)
-		if !ok || !isParamOf(fn, vr) {
+		if !ok {
+			return fn, x
+		}
+		if rt := fn.root(); rt.Recv != nil && vr == rt.Recv {
+			// receiver of a looked-into method instance: the caller's receiver expression
+			if rt.bind != nil && rt.bind.recv != nil {
+				fn, x = rt.bind.caller, rt.bind.recv
+				continue
+			}
+			return fn, x
+		}
+		if !isParamOf(fn, vr) {
 			return fn, x
 		}
 		moved := false
